@@ -740,7 +740,8 @@ def c19(work, v, tier):
     gens = [dict(module="Gen_Defrag", family="top", fn="defrag", consts=dict(MaxLen=8 if q else 12, Limits=lims), timeout=3000),
             dict(module="Gen_Defrag", family="instack", fn="defrag", consts=dict(MaxLen=6 if q else 9, Limits=lims), timeout=3000),
             dict(module="Gen_Defrag", family="incond", fn="defrag", consts=dict(MaxLen=6 if q else 9, Limits=lims), timeout=3000),
-            dict(module="Gen_Defrag", family="alias", fn="defrag", consts=dict(MaxLen=4 if q else 6, Limits="{0, 2}"), timeout=3000)]
+            dict(module="Gen_Defrag", family="alias", fn="defrag", consts=dict(MaxLen=4 if q else 6, Limits="{0, 2}"), timeout=3000),
+            dict(module="Gen_Defrag", family="deep", fn="defrag", consts=dict(MaxLen=5 if q else 8, Limits="{0, 2}"), timeout=3000)]
     return sm_check(work, v, "C19", tier, [], [], [],
                     ["Laws of DefragSpec on every generated input: no nil left anywhere, idempotent, a nil-free stack is untouched, Len = number of non-nil elements"],
                     "Defrag against spec/Defrag.tla: EVERY nil / non-nil pattern of length 0..8 (quick) / 0..12 (thorough) x scan limits {default,1,2,3} x the four "
@@ -755,7 +756,7 @@ def c19(work, v, tier):
 @check("C20")
 def c20(work, v, tier):
     q = tier == "quick"
-    gens = [dict(module="Gen_Reveal", family=f, fn="reveal", invariants=("Laws", "Emit"), timeout=3000) for f in ["chain", "wide", "alias"]]
+    gens = [dict(module="Gen_Reveal", family=f, fn="reveal", invariants=("Laws", "Emit"), timeout=3000) for f in ["chain", "wide", "alias", "idx"]]
     return sm_check(work, v, "C20", tier, [], [], [],
                     ["RvLaws on the WHOLE Reach set of every generated tree: identical depth-first leaf sequence (with Condition keyword / operator), depth never grows, "
                      "parenthetical and NOT stacks survive in order, same fully-unwrapped normal form, the receiver itself is never replaced"],
